@@ -79,6 +79,7 @@ def demangle_nested(m):
 
 def norm(q):
     q = q.replace('(anonymous namespace)::', '')
+    q = re.sub(r'\((unnamed|anonymous) (union|struct) at ', r'(\1 \2_at ', q)     # keep the kind word from NS_STRIP
     q = NS_STRIP.sub('', q)
     q = NS_STRIP.sub('', q)
     return q.strip()
@@ -320,14 +321,29 @@ class Translator:
                     t = self.ctype(r[1:])
                     return t.c().strip()
                 return r
-        if desugared and norm(desugared) != q:
-            t = self.ctype(desugared)
-            return t.c().strip()
+        if desugared:
+            # compare / recurse on the *base* of the desugared type (its pointer and reference part was already
+            # consumed from the sugared spelling by ctype)
+            dq = norm(desugared)
+            dq = re.sub(r'(\s*(\*|&|&&|const|\*const))+$', '', dq).strip()
+            dq = re.sub(r'^const ', '', dq)
+            if dq and dq != q and '(lambda' not in dq:
+                t = self.ctype(dq)
+                return t.c().strip()
         if q in self.enum_cxx:
             return self.enum_cxx[q]
         e = self.lookup_enum(q)
         if e:
             return e
+        m = re.search(r'\((?:unnamed|anonymous) (union|struct)_at [^:]*:(\d+):(\d+)\)$', q)
+        if m:
+            name = 'anon_%s_%s_%s' % (m.group(1), m.group(2), m.group(3))
+            if name not in self.structs:
+                self.structs[name] = {}
+                self.struct_order.append(name)
+            if m.group(1) == 'union':
+                self.union_structs.add(name)
+            return 'struct ' + name
         if re.fullmatch(r'[A-Za-z_][A-Za-z0-9_:]*', q):
             name = cident(q)
             if name not in self.structs:
@@ -511,7 +527,7 @@ class Translator:
         self.locals = [{}]
         self.defers = [[]]
         is_method = d['kind'] in ('CXXMethodDecl', 'CXXConstructorDecl', 'CXXConversionDecl') and not self.is_static_method(d)
-        fq = self.qt(d)
+        fq = self.qt(d).replace('(anonymous namespace)::', '')
         m = re.match(r'(.*?)\s*\(', fq)
         ret = self.ctype(m.group(1)) if d['kind'] != 'CXXConstructorDecl' else CT('void')
         self.ret_type = ret
@@ -568,6 +584,7 @@ class Translator:
         return out
 
     static_methods = set()
+    union_structs = set()      # anonymous unions: emitted as a struct wrapping a C11 anonymous union (members overlap)
 
     def is_static_method(self, d):
         if d.get('storageClass') == 'static' or d['id'] in self.static_methods:
@@ -652,6 +669,12 @@ class Translator:
             return ''.join(self.vardecl(c) for c in n.get('inner', []))
         if k == 'IfStmt':
             inner = n['inner']
+            c0 = self.peel(inner[1 if n.get('hasInit') else 0])
+            if c0.get('kind') == 'CXXMemberCallExpr' and c0['inner'][0].get('kind') == 'MemberExpr' and c0['inner'][0].get('name', '').startswith('operator bool'):
+                c0 = self.peel(c0['inner'][0]['inner'][0])      # `if (ptr)` on a smart pointer
+            if c0.get('kind') in ('MemberExpr', 'DeclRefExpr') and (c0.get('name') or c0.get('referencedDecl', {}).get('name')) in self.u.get('drop_if_cond', []) and not n.get('hasElse'):
+                self.dropped.add('`if (%s) ...` statements (tracing: no effect on verified state)' % (c0.get('name') or c0.get('referencedDecl', {}).get('name')))
+                return ''
             idx = 0
             pre = ''
             if n.get('hasInit'):
@@ -768,6 +791,36 @@ class Translator:
             if re.fullmatch(pat, qt):
                 self.dropped.add('local of type %s (no effect on verified state)' % qt)
                 return ''
+        if re.fullmatch(r'(lock_guard|unique_lock)<.*>', qt) and v.get('inner'):
+            core = self.strip(v['inner'][-1])
+            args = [a for a in core.get('inner', [])]
+            if len(args) >= 1:
+                m = self.addr(self.expr(args[0]))
+                self.defers[-1].append('verif_mutex_unlock(%s);\n' % m)
+                self.locals[-1][v['id']] = CT('char')
+                return 'verif_mutex_lock(%s);\n' % m
+            raise Unsupported('lock guard without a mutex')
+        ov = self.u.get('vardecl_overrides', {}).get((self.cur_fn, v.get('name')))
+        if ov is not None:
+            # a hand-modelled declaration: only valid while the source initialiser still mentions the stated names
+            names = set()
+
+            def walk(x):
+                if isinstance(x, dict):
+                    if x.get('name'):
+                        names.add(x['name'])
+                    if isinstance(x.get('referencedDecl'), dict) and x['referencedDecl'].get('name'):
+                        names.add(x['referencedDecl']['name'])
+                    for c in x.get('inner', []):
+                        walk(c)
+            walk(v)
+            missing = [m for m in ov.get('must_contain', []) if m not in names]
+            if missing:
+                raise Unsupported('modelled declaration %s in %s no longer mentions %s' % (v.get('name'), self.cur_fn, missing))
+            self.dropped.add('declaration `%s` in %s is hand-modelled as: %s' % (v.get('name'), self.cur_fn, ov['emit'].strip() or '(dropped)'))
+            if ov.get('type'):
+                self.locals[-1][v['id']] = self.ctype(ov['type'])
+            return ov['emit']
         h = self.vardecl_hook(v)
         if h is not None:
             return h
@@ -1219,7 +1272,10 @@ class Translator:
                 raise Unsupported('init list for %s without known field order' % t.base)
             parts = []
             for (fname, ft), it in zip(fields, items):
-                self.add_field(t.cxx, fname, ft)
+                st = self.structs.setdefault(t.base[7:], {})
+                if t.base[7:] not in self.struct_order:
+                    self.struct_order.append(t.base[7:])
+                st.setdefault(fname, ft)
                 parts.append('.%s = %s' % (fname, it))
             return '((%s){%s})' % (t.c().strip(), ', '.join(parts) or '0')
         return '{%s}' % ', '.join(items)
@@ -1470,13 +1526,13 @@ class Translator:
 
     def resolve_method(self, me, objn, name, nargs):
         mid = me.get('referencedMemberDecl')
-        d = self.decls.get(mid)
-        if d is not None and self.body_of(d) is not None:
-            return d
         cls = self.objtype(objn)
         full = '%s::%s' % (cls.split('<')[0], name)
         if full in self.u.get('no_translate', []) or name in self.u.get('no_translate', []):
             return None
+        d = self.decls.get(mid)
+        if d is not None and self.body_of(d) is not None:
+            return d
         if not self.u.get('auto_translate', True):
             return None
         if '<' in cls and not self.u.get('translate_templates', False):
@@ -1523,6 +1579,10 @@ class Translator:
             keys.append('o:%s:%s' % (op, d0))
         if len(argnodes) > 1:
             keys.insert(0, 'o:%s:%s:%s' % (op, self.objtype(a0), self.objtype(argnodes[1])))
+        try:
+            keys.append('o:%s:@%s' % (op, self.ntype(a0).base))
+        except Unsupported:
+            pass
         b = self.lookup_binding(keys)
         if b is not None:
             obj = self.expr(a0)
@@ -1639,13 +1699,17 @@ class Translator:
     # ------------------------------------------------------------------ driver
     def run(self):
         for qual, spec in self.u['functions'].items():
-            cands = self.find_function(qual, spec.get('nparams'), spec.get('ptypes'))
+            cands = self.find_function(spec.get('of', qual), spec.get('nparams'), spec.get('ptypes'))
             if len(cands) != 1:
                 raise astdump.ExtractionError('function %s: %d definitions found in %s (renamed or moved?)'
                                               % (qual, len(cands), self.source))
             d = cands[0]
-            cn = spec.get('cname') or self.cname_for(d, qual)
-            self.fn_cname[d['id']] = cn
+            if spec.get('of'):
+                # a second contract for the same function (a specialised precondition): translated again under another name
+                cn = spec['cname']
+            else:
+                cn = spec.get('cname') or self.cname_for(d, qual)
+                self.fn_cname[d['id']] = cn
             spec['_cname'] = cn
             spec['_decl'] = d
         for qual, spec in self.u['functions'].items():
@@ -1701,13 +1765,41 @@ class Translator:
         for s in list(self.struct_order):
             visit(s)
         extra = self.u.get('struct_extra', {})
-        for s in order:
+        vecs = dict(self.u.get('vec_types', {}))     # model vector typedef -> element C type
+        emitted_vecs = set()
+
+        def emit_vecs_ready(defined):
+            for vn, elem in vecs.items():
+                if vn in emitted_vecs:
+                    continue
+                if not elem.startswith('struct ') or elem.endswith('*') or elem[7:].strip() in defined or elem[7:].strip() in predefined:
+                    out.append('VERIF_VEC(%s, %s)' % (vn, elem))
+                    emitted_vecs.add(vn)
+        # a struct holding a model vector by value must come after the vector typedef, which must come after its element
+        pending = list(order)
+        defined = set()
+        emit_vecs_ready(defined)
+        guard = 0
+        while pending:
+            guard += 1
+            if guard > 10000:
+                raise Unsupported('cannot order structs and vector models: %s' % pending)
+            s = pending.pop(0)
+            need = [t.base for t in self.structs[s].values() if t.ptr == 0 and not t.ref and t.base in vecs and t.base not in emitted_vecs]
+            if need:
+                pending.append(s)
+                continue
             fields = self.structs[s]
             body = ''.join('  %s;\n' % t.decl(f) for f, t in fields.items())
             body += extra.get(s, '')
             if not body:
                 body = '  char _empty;\n'
+            if s in self.union_structs:
+                body = '  union {\n%s  };\n' % body
             out.append('struct %s {\n%s};' % (s, body))
+            defined.add(s)
+            emit_vecs_ready(defined)
+        emit_vecs_ready(defined | set(self.structs))
         out.append(self.u.get('after_structs', ''))
         for cn, (i, p) in self.protos.items():
             out.append(p)
